@@ -102,6 +102,7 @@ func ExecLedger(prop string) func(t *testing.T, pa any, col *kernel.Collector) [
 
 func execLedger(prop string, p *Plan, col *kernel.Collector) []kernel.Violation {
 	ResetCrit()
+	defer InstallMapOrder(p.OrderSeed)()
 	mrand.Seed(int64(HashPlan(p) & 0x7fffffffffffffff))
 	u, err := Build(&p.Recipe)
 	if err != nil {
@@ -712,6 +713,9 @@ func (l *ledgerRun) nodeLedger(i int, n *Node) {
 // every fork mode, 1-3 nodes with restarts, crashes and reorganisations.
 func GenLedger(rng *kernel.RNG, env *kernel.Env, k int) any {
 	p := &Plan{FailAt: -1, GoMaxProcs: []int{1, 4, 16}[rng.Intn(3)]}
+	if rng.Intn(2) == 0 {
+		p.OrderSeed = rng.Uint64() | 1
+	}
 	o := GenOpts{MinMain: 3, MaxMain: 14, MaxForks: 3, MaxTx: 10, Uncles: true, ForkModes: []string{"nohf", "allhf", "staged", "random"}}
 	if k%6 == 5 {
 		o.MaxMain = 30
